@@ -149,6 +149,12 @@ def r3a_definite_assignment(ctx, chk, rule="C06.3a"):
             f = ctx.prog.resolve_method(cls, meth)
             if f is None or f.name.startswith("__") or f.name in ("check_next_states", "remove_path"):
                 continue
+            # a private helper that is only ever called as self.<helper>(...) from methods of the node classes is judged inside
+            # those callers (it is inlined there, with the callers' guards on the path)
+            callers = ctx.cg.callers_of(f)
+            if f.name.startswith("_") and callers and all(g.cls is not None and g.cls.name in ctx.prog.mro(cls) + list(ctx.prog.subclasses(g.cls.name)) and isinstance(c.func, ast.Attribute)
+                                                         and isinstance(c.func.value, ast.Name) and c.func.value.id == "self" and not getattr(c, "synthetic", False) for g, c in callers):
+                continue
             try:
                 k = K.kernel(ctx, cls, meth)
             except AnalysisError as e:
